@@ -114,6 +114,14 @@ def scan (sch : Schema) (rnd : Int) (rows : Rows) (keys : List Bytes) (rrs : Lis
     (limit : Int) (f : Filter) : List Row :=
   applyLimit limit ((scanVisit (scanRanges keys rrs) rows).filterMap (emitRow sch rnd f))
 
+/-- Number of `stream.Send` calls a scan makes: a message is flushed as soon as more than
+    `chunkBatch` chunks are buffered, and once more at the end if anything is left. -/
+def sendCount : Nat → List Row → Nat
+  | buffered, [] => if buffered > 0 then 1 else 0
+  | buffered, r :: rs =>
+    let b := buffered + r.cellCount
+    if b > Generated.chunkBatch then 1 + sendCount 0 rs else sendCount b rs
+
 /-! ### Chunk stream -/
 
 structure Chunk where
